@@ -573,7 +573,8 @@ def _remass():
         "general": G.floats(0.5, 50.0), "shaft": G.floats(0.05, 5.0), "motor": G.floats(0.05, 5.0),
         "top": st.one_of(st.none(), st.just(0.0), G.floats(0.5, 50.0)),
         "grav": _gravities(), "grav_later": _gravities(),
-        "cog": st.one_of(st.none(), st.tuples(G.floats(0.02, 0.4), G.floats(0.02, 0.4))),
+        "cog": st.one_of(st.none(), st.tuples(G.floats(0.02, 0.4), G.floats(0.02, 0.4)),
+                        st.tuples(G.floats(0.02, 0.4), st.just(0.0))),
     }))
 
 
